@@ -101,14 +101,14 @@ func StubFileReadDir(h *os.File, n int) ([]os.DirEntry, error) { return fileOf(h
 func StubFileReadFrom(h *os.File, r io.Reader) (int64, error) {
 	f := fileOf(h)
 	if lr, ok := r.(*io.LimitedReader); ok {
-		if tr, ok := lr.R.(*tar.Reader); ok {
+		if tr, ok := lr.R.(*tar.Reader); ok && !tarstub.HasContent(tr) {
 			n := tarstub.TakeFrom(tr, lr.N)
 			lr.N -= n
 			f.Grow(n)
 			return n, nil
 		}
 	}
-	if tr, ok := r.(*tar.Reader); ok {
+	if tr, ok := r.(*tar.Reader); ok && !tarstub.HasContent(tr) {
 		n := tarstub.TakeFrom(tr, -1)
 		f.Grow(n)
 		return n, nil
